@@ -43,6 +43,8 @@ def dispatch (op : String) (args : List String) : String :=
             | some r => r
             | none => match outcomeDispatch op args with
               | some r => r
-              | none => "(err bad-op)"
+              | none => match marshDispatch op args with
+                | some r => r
+                | none => "(err bad-op)"
 
 end XV.Driver
